@@ -120,7 +120,21 @@ def m_float_nan_inf(case: dict, xd: Any, what: str) -> bool:
     return False
 
 
+def explained_by(tag: str) -> Callable[[dict, Any, str], bool]:
+    """C11: the stream has established that the verdicts agree once the schema is read with the repair(s)
+    named in the tag (D13: NotBlank pattern = "has a non-whitespace character"; D14: oneOf as anyOf; D15: user
+    patterns anchored at the start) -- and with nothing less"""
+    def m(case: dict, xd: Any, what: str) -> bool:
+        import re
+        mm = re.search(r"\[explained-by:([D0-9+]+)\]", what)
+        return bool(mm) and tag in mm.group(1).split("+")
+    return m
+
+
 MATCHERS: Dict[str, Callable[[dict, dict, str], bool]] = {
+    "explained_by_D13": explained_by("D13"),
+    "explained_by_D14": explained_by("D14"),
+    "explained_by_D15": explained_by("D15"),
     "float_nan_inf_in_schema": m_float_nan_inf,
     "container_pred_on_payload": m_container_pred_on_payload,
     "special_decimal": m_special_decimal,
